@@ -153,6 +153,12 @@ class C13(Prop):
             yield Case('search_re', (rng.choice(['X', '^x', 'y$', 'x|1', '[ab]', 'Y']), rng.choice([None, 'k', 'a']),
                                      rng.choice([0, 0, 2, 8]), st))
             yield Case('search_re', (rng.choice(['X', 'Y', 'XY']), rng.choice([None, 'a', 'a']), 2, st))
+            # biselect (with and without a complement keyword of its own) and the tables of facet partition the input
+            rect = self._table(rng, False)
+            yield Case('biselect', (rng.choice(['k', 'a', 'v', None]), rng.choice([('eq', refvalue(rng)), ('isnone',), ('true',),
+                                                                                  ('user', 1), ('lt', refvalue(rng))]),
+                                    rng.choice([None, None, True, False]), rect))
+            yield Case('facet', (rng.choice(['k', 'a', 'v', ('k', 'a')]), rect))
             # membership in a string (substring semantics) and in a tuple, selectin vs selectnotin
             yield Case('select', ('field', 'a', ('in', rng.choice(['xy', 'yx', 'x', ''])), compl, None, t))
             yield Case('select', ('field', 'a', ('notin', rng.choice(['xy', 'yx', 'x', ''])), compl, None, t))
@@ -182,6 +188,10 @@ class C13(Prop):
                 n, t = case.arg
                 return obs_rows(etl.skip([tuple(r) for r in t], n))
             if case.op == 'const_true':
+                if case.arg[0] == 'biselect':
+                    return codec.t_bool(self._biselect(*case.arg[1:]))
+                if case.arg[0] == 'facet':
+                    return codec.t_bool(self._facet(*case.arg[1:]))
                 return codec.t_bool(self._search_re(*case.arg))
             if case.op == 'search':
                 pat, field, compl, t = case.arg
@@ -195,7 +205,40 @@ class C13(Prop):
     def expand(self, case):
         if case.op == 'search_re':
             return Case('const_true', case.arg, dict(case.meta, orig='search_re'))
+        if case.op in ('biselect', 'facet'):
+            return Case('const_true', (case.op,) + tuple(case.arg), dict(case.meta, orig=case.op))
         return case
+
+    def _biselect(self, field, vp, compl_kw, t):
+        import petl as etl
+        src = [tuple(r) for r in t]
+        test = vpred_fn(vp)
+        kw = {} if compl_kw is None else {'complement': compl_kw}
+        if field is None:
+            i = 0
+            pred = lambda rec: test(rec[0])   # noqa
+            t1, t2 = etl.biselect(src, pred, **kw)
+        else:
+            i = list(t[0]).index(field)
+            pred = test
+            t1, t2 = etl.biselect(src, field, pred, **kw)
+        want_in = [tuple(r) for r in t[1:] if test(r[i])]
+        want_out = [tuple(r) for r in t[1:] if not test(r[i])]
+        return ([tuple(r) for r in t1] == [tuple(t[0])] + want_in and [tuple(r) for r in t2] == [tuple(t[0])] + want_out)
+
+    def _facet(self, key, t):
+        import petl as etl
+        src = [tuple(r) for r in t]
+        hdr = list(t[0])
+        kf = (lambda r: tuple(r[hdr.index(k)] for k in key)) if isinstance(key, tuple) else (lambda r: r[hdr.index(key)])
+        fct = etl.facet(src, key)
+        total = 0
+        for v, tab in fct.items():
+            rows = [tuple(r) for r in tab]
+            if rows[0] != tuple(t[0]) or rows[1:] != [tuple(r) for r in t[1:] if kf(r) == v] or len(rows) < 2:
+                return False
+            total += len(rows) - 1
+        return total == len(t) - 1 and all(any(kf(r) == v for v in fct) for r in t[1:])
 
     def _search_re(self, pat, field, flags, t):
         import re
